@@ -71,7 +71,11 @@ void m_iintPlus(void)
 {
 	IN_ANY(a); IN_ANY(b); IN_ANY(r0); INPUT(int, alias);
 	BInt r = alias == 1 ? a : alias == 2 ? b : r0;
+#ifndef CANARY_mem_iintPlus
 	ASSUME(!a->isNeg && !b->isNeg && a->placec >= b->placec && b->placec >= 1 && r->placea > a->placec);
+#else
+	ASSUME(!a->isNeg && !b->isNeg && a->placec >= b->placec && b->placec >= 1 && r->placea >= a->placec);
+#endif
 	iintPlus(r, a, b);
 	CHECK("iintPlus: header", HDR_OK(r));
 	VREACH();
